@@ -407,12 +407,66 @@ def rule_qs(ck):
     qs = ps[0]
     facts = must_facts(f.cfg)
     codecs = {}
-    dec = [(n, c) for n, c in f.cfg.find(lambda x: isinstance(x, ast.Call) and isinstance(x.func, ast.Attribute) and x.func.attr == "decode" and q.dotted(x.func.value) == qs)]
-    ck.floor(rid, len(dec), 1, "decode of the bytes argument")
+    # what reaches parse_qs, by case analysis over the argument's type: bytes must be decoded as latin-1 exactly once,
+    # str (the latin-1 decoding of the bytes, per the contract) must arrive unchanged -- no transcoding chain through
+    # another codec (class: text encoded with codec A and re-read with codec B)
+    def _norm(c_):
+        c_ = (c_ or "").lower()
+        return "latin1" if c_ in LATIN1 else ("utf8" if c_ in UTF8 else c_)
+
+    def sym(e, env, tau):
+        if isinstance(e, ast.Name):
+            return env.get(e.id, "?" if e.id != qs else None)
+        if isinstance(e, ast.Call) and isinstance(e.func, ast.Attribute) and e.func.attr in ("decode", "encode") and (e.args or q.kwarg(e, "encoding") is not None):
+            base = sym(e.func.value, env, tau)
+            cod = _norm(const_of(m, e.args[0] if e.args else q.kwarg(e, "encoding")))
+            if base is None or base == "?" or not cod:
+                return "?"
+            if e.func.attr == "decode":
+                if base == "B":
+                    return ("T", cod)
+                if isinstance(base, tuple) and base[0] == "E":
+                    return "S" if base[1] == cod else ("M", "encoded as %s, decoded as %s" % (base[1], cod))
+                return "?"
+            if base == "S":
+                return ("E", cod)
+            if isinstance(base, tuple) and base[0] == "T":
+                return "B" if base[1] == cod else ("M", "decoded as %s, encoded as %s" % (base[1], cod))
+            return "?"
+        if isinstance(e, ast.Call) and q.call_attr(e) in ("utf8",) and len(e.args) == 1:
+            base = sym(e.args[0], env, tau)
+            return {"B": "B", "S": ("E", "utf8")}.get(base, "?") if not isinstance(base, tuple) else "?"
+        if isinstance(e, ast.Call) and q.call_attr(e) in ("to_unicode", "_unicode", "native_str", "to_basestring") and len(e.args) == 1:
+            base = sym(e.args[0], env, tau)
+            return {"B": ("T", "utf8"), "S": "S"}.get(base, "?") if not isinstance(base, tuple) else "?"
+        if isinstance(e, ast.Call) and q.call_attr(e) == "str" and len(e.args) == 1 and sym(e.args[0], env, tau) == "S":
+            return "S"
+        return "?" if any(isinstance(x, ast.Name) and (x.id in env) for x in ast.walk(e)) else None
+
+    pq_calls = [(n, c) for n, c in f.cfg.find(lambda x: isinstance(x, ast.Call) and qualify(m, x.func) == "urllib.parse.parse_qs")]
+    for tau, start, want, wtxt in (("bytes", "B", ("T", "latin1"), "bytes input is decoded as latin-1 (each byte one code point)"), ("str", "S", "S", "str input reaches the parser unchanged")):
+        def transfer(n, envf, tau=tau):
+            if n.kind == "stmt" and isinstance(n.ast, (ast.Assign, ast.AnnAssign)) and n.ast.value is not None:
+                tg = n.ast.targets if isinstance(n.ast, ast.Assign) else [n.ast.target]
+                if len(tg) == 1 and isinstance(tg[0], ast.Name):
+                    env = dict(envf)
+                    v = sym(n.ast.value, env, tau)
+                    if v is None:
+                        env.pop(tg[0].id, None)
+                    else:
+                        env[tg[0].id] = v
+                    return frozenset(env.items())
+            return envf
+        r_ = walk(f.cfg, [(f.cfg.entry.id, frozenset({(qs, start)}))], transfer, decide=_type_oracle(ck, m, qs, tau))
+        for n, c in pq_calls:
+            for envf in r_.get(n.id, ()):
+                got = sym(c.args[0], dict(envf), tau) if c.args else "?"
+                if got == "?" or got is None:
+                    raise AnalysisError("parse_qs_bytes: what reaches parse_qs for %s input is not understood: %s" % (tau, q.unparse(c.args[0]) if c.args else "?"))
+                ck.ob(rid, f, c, got == want, "%s%s" % (wtxt, "" if got == want else " (found: %s)" % (got[1] if isinstance(got, tuple) and got[0] == "M" else (got,))), construct="parse_qs input for %s: %s" % (tau, got))
+    dec = [(n, c) for n, c in f.cfg.find(lambda x: isinstance(x, ast.Call) and isinstance(x.func, ast.Attribute) and x.func.attr == "decode")]
     for n, c in dec:
-        cod = const_of(m, c.args[0]) if c.args else None
-        codecs["decode"] = cod
-        ck.ob(rid, f, c, any(pol and "bytes" in ts for ts, pol in isinstance_facts(ck, m, facts[n.id], qs)), "bytes input is decoded (only under isinstance(qs, bytes))")
+        codecs["decode"] = const_of(m, c.args[0]) if c.args else None
     pq = [c for c in q.calls(f.node) if qualify(m, c.func) == "urllib.parse.parse_qs"]
     ck.floor(rid, len(pq), 1, "parse_qs call")
     for c in pq:
@@ -617,6 +671,8 @@ MUTANTS = [
     ("text mode ignores the caller's encoding", _impl("url_unescape", replace_expr(lambda n: isinstance(n, ast.Call) and _u(n.func) == "unquote", lambda n: parse_expr("unquote(to_basestring(value))"))), "C21.url"),
     ("url_unescape decodes latin-1 by default", _impl("url_unescape", lambda fn: (fn.args.defaults.__setitem__(0, ast.Constant(value="latin1")) or True)), "C21.url"),
     ("url_unescape defaults to plus=False", _impl("url_unescape", lambda fn: (fn.args.defaults.__setitem__(1, ast.Constant(value=False)) or True)), "C21.url"),
+    ("seeded C21-adv4: str queries are UTF-8 encoded and re-read as latin-1", _in("parse_qs_bytes", replace_stmt(lambda st: isinstance(st, ast.If) and "isinstance" in _u(st.test), lambda st: [parse_stmt("qs = utf8(qs).decode('latin1')")])), "C21.qs"),
+    ("bytes queries decoded as UTF-8 before latin-1 parsing", _in("parse_qs_bytes", replace_expr(lambda n: isinstance(n, ast.Call) and isinstance(n.func, ast.Attribute) and n.func.attr == "decode", lambda n: parse_expr("to_unicode(qs)"))), "C21.qs"),
     ("values re-encoded as utf-8", _in("parse_qs_bytes", replace_expr(lambda n: isinstance(n, ast.Call) and isinstance(n.func, ast.Attribute) and n.func.attr == "encode", lambda n: parse_expr("i.encode('utf-8')"))), "C21.qs"),
     ("query parsed as utf-8", _in("parse_qs_bytes", replace_expr(lambda n: isinstance(n, ast.keyword) and n.arg == "encoding", lambda n: ast.keyword(arg="encoding", value=ast.Constant(value="utf-8")))), "C21.qs"),
     ("blank values always dropped", _in("parse_qs_bytes", replace_expr(lambda n: isinstance(n, ast.Name) and n.id == "keep_blank_values" and isinstance(n.ctx, ast.Load), lambda n: ast.Constant(value=False))), "C21.qs"),
